@@ -258,14 +258,15 @@ type condAxiom struct {
 }
 
 var condAxioms = []condAxiom{
+	{"str", "(assert (forall ((s Str)) (! (>= (str_len s) 0) :pattern ((str_len s)))))\n(assert (forall ((s Str)) (! (=> (= (str_len s) 0) (= s str_empty)) :pattern ((str_len s)))))\n"},
 	{"bytes_str", "(assert (forall ((a (Array Int Int)) (n Int) (i Int)) (! (=> (and (<= 0 i) (< i n)) (= (str_at (bytes_str a n) i) (select a i))) :pattern ((str_at (bytes_str a n) i)))))\n"},
-	{"str_zeros", "(assert (forall ((n Int)) (! (=> (>= n 0) (= (str_len (str_zeros n)) n)) :pattern ((str_zeros n)))))\n(assert (forall ((n Int) (i Int)) (! (= (str_at (str_zeros n) i) 0) :pattern ((str_at (str_zeros n) i)))))\n"},
-	{"str_set", "(assert (forall ((s Str) (i Int) (b Int)) (! (= (str_len (str_set s i b)) (str_len s)) :pattern ((str_set s i b)))))\n(assert (forall ((s Str) (i Int) (b Int) (j Int)) (! (= (str_at (str_set s i b) j) (ite (= j i) b (str_at s j))) :pattern ((str_at (str_set s i b) j)))))\n(assert (forall ((s Str) (i Int) (b Int) (a Int) (c Int)) (! (=> (or (< i a) (>= i c)) (= (str_sub (str_set s i b) a c) (str_sub s a c))) :pattern ((str_sub (str_set s i b) a c)))))\n"},
+	{"str_zeros", "(assert (forall ((n Int)) (! (=> (>= n 0) (= (str_len (str_zeros n)) n)) :pattern ((str_zeros n)))))\n(assert (forall ((n Int) (i Int)) (! (=> (and (<= 0 i) (< i n)) (= (str_at (str_zeros n) i) 0)) :pattern ((str_at (str_zeros n) i)))))\n"},
+	{"str_set", "(assert (forall ((s Str) (i Int) (b Int)) (! (= (str_len (str_set s i b)) (str_len s)) :pattern ((str_set s i b)))))\n(assert (forall ((s Str) (i Int) (b Int) (j Int)) (! (= (str_at (str_set s i b) j) (ite (and (= j i) (<= 0 i) (< i (str_len s))) b (str_at s j))) :pattern ((str_at (str_set s i b) j)))))\n(assert (forall ((s Str) (i Int) (b Int) (a Int) (c Int)) (! (=> (or (< i a) (>= i c)) (= (str_sub (str_set s i b) a c) (str_sub s a c))) :pattern ((str_sub (str_set s i b) a c)))))\n"},
 	{"str_splice", "(assert (forall ((s Str) (o Int) (t Str)) (! (= (str_len (str_splice s o t)) (str_len s)) :pattern ((str_splice s o t)))))\n(assert (forall ((s Str) (o Int) (t Str)) (! (=> (and (<= 0 o) (<= (+ o (str_len t)) (str_len s))) (= (str_sub (str_splice s o t) o (+ o (str_len t))) t)) :pattern ((str_splice s o t)))))\n(assert (forall ((s Str) (o Int) (t Str) (j Int)) (! (=> (or (< j o) (>= j (+ o (str_len t)))) (= (str_at (str_splice s o t) j) (str_at s j))) :pattern ((str_at (str_splice s o t) j)))))\n(assert (forall ((s Str) (o Int) (t Str) (a Int) (c Int)) (! (=> (or (<= c o) (>= a (+ o (str_len t)))) (= (str_sub (str_splice s o t) a c) (str_sub s a c))) :pattern ((str_sub (str_splice s o t) a c)))))\n"},
-	{"str_sub", "(assert (forall ((s Str) (a Int) (b Int)) (! (=> (and (<= 0 a) (<= a b) (<= b (str_len s))) (= (str_len (str_sub s a b)) (- b a))) :pattern ((str_sub s a b)))))\n(assert (forall ((s Str)) (! (= (str_sub s 0 (str_len s)) s) :pattern ((str_sub s 0 (str_len s))))))\n(assert (= (str_len str_empty) 0))\n(assert (forall ((s Str)) (! (>= (str_len s) 0) :pattern ((str_len s)))))\n(assert (forall ((s Str)) (! (=> (= (str_len s) 0) (= s str_empty)) :pattern ((str_len s)))))\n"},
+	{"str_sub", "(assert (forall ((s Str) (a Int) (b Int)) (! (=> (and (<= 0 a) (<= a b) (<= b (str_len s))) (= (str_len (str_sub s a b)) (- b a))) :pattern ((str_sub s a b)))))\n(assert (forall ((s Str)) (! (= (str_sub s 0 (str_len s)) s) :pattern ((str_sub s 0 (str_len s))))))\n(assert (forall ((s Str) (a Int) (b Int) (i Int)) (! (=> (and (<= 0 a) (<= 0 i) (< (+ a i) b) (<= b (str_len s))) (= (str_at (str_sub s a b) i) (str_at s (+ a i)))) :pattern ((str_at (str_sub s a b) i)))))\n(assert (forall ((s Str) (a Int) (b Int) (c Int) (d Int)) (! (=> (and (<= 0 a) (<= 0 c) (<= c d) (<= (+ a d) b) (<= b (str_len s))) (= (str_sub (str_sub s a b) c d) (str_sub s (+ a c) (+ a d)))) :pattern ((str_sub (str_sub s a b) c d)))))\n(assert (= (str_len str_empty) 0))\n"},
 	{"zeroarr_Str", "(assert (forall ((i Int)) (! (= (select zeroarr_Str i) str_empty) :pattern ((select zeroarr_Str i)))))\n"},
-	{"str_len", "(assert (= (str_len str_empty) 0))\n(assert (forall ((s Str)) (! (>= (str_len s) 0) :pattern ((str_len s)))))\n(assert (forall ((s Str)) (! (=> (= (str_len s) 0) (= s str_empty)) :pattern ((str_len s)))))\n"},
-	{"bytes_str", "(assert (forall ((a (Array Int Int)) (n Int)) (! (=> (>= n 0) (= (str_len (bytes_str a n)) n)) :pattern ((bytes_str a n)))))\n(assert (= (str_len str_empty) 0))\n(assert (forall ((s Str)) (! (>= (str_len s) 0) :pattern ((str_len s)))))\n"},
+	{"str_len", "(assert (= (str_len str_empty) 0))\n"},
+	{"bytes_str", "(assert (forall ((a (Array Int Int)) (n Int)) (! (=> (>= n 0) (= (str_len (bytes_str a n)) n)) :pattern ((bytes_str a n)))))\n(assert (= (str_len str_empty) 0))\n"},
 	{"str_lt", "(assert (forall ((a Str)) (not (str_lt a a))))\n(assert (forall ((a Str) (b Str) (c Str)) (=> (and (str_lt a b) (str_lt b c)) (str_lt a c))))\n(assert (forall ((a Str) (b Str)) (or (str_lt a b) (= a b) (str_lt b a))))\n(assert (forall ((a Str)) (not (str_lt a str_empty))))\n"},
 }
 
